@@ -116,6 +116,12 @@ DispatchNext(I, s, j, m) ==
         mfree |-> [s.mfree EXCEPT ![m] = en]]
 
 -----------------------------------------------------------------------------
+(* a schedule value that only mentions operations and machines of I (so that   *)
+(* the operators below are defined on it)                                      *)
+WellTypedSchedule(I, sched) ==
+    /\ DOMAIN sched = Machines(I)
+    /\ \A m \in DOMAIN sched : \A i \in DOMAIN sched[m] : EOp(sched[m][i]) \in AllOps(I)
+
 (* C01: feasibility of a (partial) schedule *)
 Feasible(I, sched) ==
     /\ DOMAIN sched = Machines(I)
